@@ -397,6 +397,17 @@ impl IoEvent {
     }
 }
 
+/// The error kind of an injected stream fault varies with the position of the fault: every kind other than
+/// `Interrupted` (which `std` retries, and which is injected separately as a non-fault) is a fault.
+pub fn fault_kind(k: usize) -> std::io::ErrorKind {
+    use std::io::ErrorKind::*;
+    const KINDS: &[std::io::ErrorKind] = &[
+        Other, UnexpectedEof, BrokenPipe, TimedOut, WouldBlock, InvalidData, WriteZero, PermissionDenied, ConnectionReset,
+        InvalidInput, NotFound, Unsupported,
+    ];
+    KINDS[k % KINDS.len()]
+}
+
 #[derive(Clone, Copy, Debug, PartialEq, Eq)]
 pub enum WriteFault {
     /// k-th write call (1-based) returns an error
@@ -473,10 +484,7 @@ impl Write for RecWriter {
                     accepted: 0,
                     fault: Some("error"),
                 });
-                return Err(std::io::Error::new(
-                    std::io::ErrorKind::Other,
-                    "injected write fault",
-                ));
+                return Err(std::io::Error::new(fault_kind(k), "injected write fault"));
             }
             Some(WriteFault::ZeroAt(k)) if self.calls >= k => {
                 self.faulted = true;
@@ -561,10 +569,7 @@ impl Read for RecReader {
                     returned: Vec::new(),
                     fault: Some("error"),
                 });
-                return Err(std::io::Error::new(
-                    std::io::ErrorKind::Other,
-                    "injected read fault",
-                ));
+                return Err(std::io::Error::new(fault_kind(k), "injected read fault"));
             }
             Some(ReadFault::InvalidUtf8At(k)) if self.calls >= k => {
                 let bad = [0xffu8, 0xfe, b'\n'];
